@@ -205,7 +205,7 @@ def gen_parser(w, peg_text, flags, rel, timeout=60):
 
 def run_engine(w, pkgs="./...", harness="", nmin=0, nmax=0, timeout_s=0, max_paths=0, jobs=NCPU,
                max_steps=2_000_000, sample_every=0, solver="z3-new", wall_limit=None, under=None, dir=None,
-               overlay=None, solver_ms=10000, args=None):
+               overlay=None, solver_ms=30000, args=None):
     binp = ensure_engine()
     out = os.path.join(w.dir, "engine-%d.json" % int(time.time() * 1000))
     cmd = [binp, "-dir", dir or w.mod, "-pkgs", pkgs, "-harness", harness, "-nmin", str(nmin), "-nmax", str(nmax),
